@@ -7,6 +7,7 @@ pub mod c05;
 pub mod c09;
 pub mod c10;
 pub mod c11;
+pub mod c12;
 pub mod c15;
 pub mod c16;
 pub mod c17;
@@ -24,6 +25,7 @@ pub fn run(id: &str, eng: &mut Engine) -> bool {
         "C09" => c09::run(eng),
         "C10" => c10::run(eng),
         "C11" => c11::run(eng),
+        "C12" => c12::run(eng),
         "C15" => c15::run(eng),
         "C16" => c16::run(eng),
         "C17" => c17::run(eng),
